@@ -4,5 +4,6 @@ set -e
 cd "$(dirname "$0")"
 export PYTHONPATH="$PWD"
 /venv/bin/python -W ignore tools/translate.py || true
+/venv/bin/python tools/gen_roots.py
 cd lean
 lake build Mouette mouette_model 2>&1 | tail -5
